@@ -5,7 +5,7 @@ import json, subprocess
 hooks = ["4a0f203", "8fe147a"]
 P = {
  "C01": ("exploration", "3.C01", "reference-model monitor over agent run histories (plan facade + real binary e2e)",
-  "Every installed state produced by the real reader/compare/writer pipeline (L1: 3 000+ generated histories; L2: the release binary over TLS against a fake Junos and fake IRRd) is applied to a reference Junos merge model and checked for convergence to the evaluated sets, absence of unmanaged leftovers (including runs in which no candidate is left or none evaluates while a delete is due), read-back by the agent's own reader and idempotence. Held-on-what-was-observed; the Junos merge semantics are the harness' model.",
+  "Every installed state produced by the real reader/compare/writer pipeline (L1: 3 000+ generated histories; L2: the release binary over TLS against a fake Junos and fake IRRd) is applied to a reference Junos merge model and checked for convergence to the evaluated sets, absence of unmanaged leftovers (including runs in which no candidate is left or none evaluates while a delete is due), read-back by the agent's own reader and idempotence; some L2 runs meet a router-side error on one of their loads and must then report failure or have converged all the same. Held-on-what-was-observed; the Junos merge semantics are the harness' model.",
   "Junos merge semantics and get-config rendering are modelled (harness/src/junos.rs); RPSL oracle = irrfake reference evaluator."),
  "C02": ("exploration", "3.C02", "accept-set invariant checked after every single update on a reference model",
   "Each update payload emitted by the real pipeline is applied on its own (emitted and permuted order) to the reference model; after each, every accepting term must have exactly one family, >=1 explicit prefix-length-range filters all inside the evaluated set, and the statement must end in reject; element paths and the set of operations on the wire are checked too.",
@@ -20,17 +20,17 @@ P = {
   "The real Session::rpc / reply futures run over an in-memory transport under a scheduler that owns every poll, delivery, send completion; exhaustive DFS for n<=2 (quick) / n<=3 (thorough), plus 20k / 2M random schedules with bogus (unknown-id, duplicate) replies; every outcome is compared with the tag the server put in the reply of that message-id; stuck sets are detected at quiescence.",
   "spurious polls are not explored; the scheduler stage delivers whole messages; the real-transport stage (600 / 30k sessions over loopback TLS, SSH and a child process: 1-3 batches of 2-6 pipelined requests answered in a random permutation cut into random units, futures awaited in order, in reverse or as spawned tasks on a 4-thread runtime) covers the transports' own buffering underneath the demultiplexer; the thorough tier repeats that stage in a ThreadSanitizer build (std included)."),
  "C06": ("exploration", "3.C06", "real loopback TLS/SSH/child-process peers with scripted segmentation; delivery witness from the client's own trace",
-  "Every cut position inside every delimiter, cuts around delimiters, k messages per unit, 1-byte dribble, look-alike bodies, 64 KiB bodies and random multi-cuts per transport (thorough: every single cut position); after each unit the peer waits until the client's trace shows the bytes consumed and checks that every complete message was delivered without further traffic.",
+  "Every cut position inside every delimiter, cuts around delimiters, k messages per unit, the peer stopping to send right after its last message, 1-byte dribble, look-alike bodies, 64 KiB bodies and random multi-cuts per transport (thorough: every single cut position); after each unit the peer waits until the client's trace shows the bytes consumed and checks that every complete message was delivered without further traffic.",
   "client trace events report what was read; non-reproducible segmentations are not_exercised, never verdicts."),
  "C07": ("fault_enumeration", "3.C07", "scripted peer close at every point x manner x transport in killable worker processes; spin/hang witnesses",
-  "Close points {before/inside hello, idle, inside reply, between request and reply, after reply} x manners {clean, SSH channel close, abrupt (RST), fin-only (TCP FIN without TLS close_notify / SSH goodbye)} x outstanding {0,1,3} on TLS, SSH and child process; spin = >=1000 zero-length reads or >=80% CPU after the close, hang = watchdog with idle CPU confirmed 3/3.",
+  "Close points {before/inside hello, idle, inside reply, between request and reply, after reply, while <close-session> is pending} x manners {clean, SSH channel close, abrupt (RST), fin-only (TCP FIN without TLS close_notify / SSH goodbye)} x outstanding {0,1,3} on TLS, SSH and child process; spin = >=1000 zero-length reads or >=80% CPU after the close, hang = watchdog with idle CPU confirmed 3/3.",
   "hang verdicts need 3/3 confirmation, otherwise inconclusive."),
  "C08": ("exploration", "3.C08", "generated reply grammar through the real reply futures, oracle on severities / positive indication / error list",
   "20k (quick) / 2M (thorough) reply documents with 0-4 rpc-errors around the positive indication at top level and inside load-configuration-results, for EmptyReply, DataReply, BareReply and load-configuration replies; repeated identical adjacent errors, Junos-native <xnm:error> elements in bare replies; every reported error's type, tag, severity, app-tag, path and message are compared with the reply's, in order.", "reply grammar of RFC 6241 / Junos as generated by harness/src/c08.rs."),
  "C09": ("exploration", "3.C09", "capability matrix x request recipes against an RFC 6241 section 8 table, both directions",
-  "Capability sets (quick: 300 sampled; thorough: all 9 216) x 351 request recipes through the public builders on a real session; bytes on the wire are re-parsed and every feature present must be permitted, and every permitted recipe must be sent; a URL-scheme stage (3k / 150k cases) advertises scheme names of the whole RFC 3986 grammar (letters, digits, + - .) and sends URLs with advertised, near-miss and unrelated schemes.", "the RFC table transcribed in harness/src/c09.rs; explicit defaults are dont_care."),
+  "Capability sets (quick: 300 sampled; thorough: all 9 216) x 351 request recipes through the public builders on a real session; bytes on the wire are re-parsed and every feature present must be permitted, and every permitted recipe must be sent; 11 recipes leave a required parameter out (forward direction only: whatever reaches the wire must be permitted); a URL-scheme stage (3k / 150k cases) advertises scheme names of the whole RFC 3986 grammar (letters, digits, + - .) and sends URLs with advertised, near-miss and unrelated schemes.", "the RFC table transcribed in harness/src/c09.rs; explicit defaults are dont_care."),
  "C10": ("exploration", "3.C10", "adversarial parameter values re-parsed by an independent strict XML parser",
-  "30k (quick) / 3M (thorough) requests over 16 value slots + agent payloads with metacharacters, quotes, ]]>, the delimiter, CR/LF/TAB, non-ASCII, empty and long values; well-formedness, single trailing delimiter, exact value recovery, verbatim fragments; all requests of a run are serialised on one thread, refused ones in between, so state kept between messages shows up in the next one (and in the periodic re-establishment).", "server = conforming XML 1.0 parser; own parser cross-checked by unit tests."),
+  "30k (quick) / 3M (thorough) requests over 25 value slots (each parameter alone and with other legal parameters set alongside) + agent payloads with metacharacters, quotes, ]]>, the delimiter, CR/LF/TAB, non-ASCII, empty and long values; well-formedness, single trailing delimiter, exact value recovery, verbatim fragments; all requests of a run are serialised on one thread, refused ones in between, so state kept between messages shows up in the next one (and in the periodic re-establishment).", "server = conforming XML 1.0 parser; own parser cross-checked by unit tests."),
  "C11": ("exploration", "3.C11", "differential testing against an independent RPSL evaluator over generated IRR databases (in-process, bgpfu binary, agent binary)",
   "Generated databases (nested/cyclic sets, v4-only/v6-only/no routes, duplicates) x generated expressions; output ranges compared pointwise with the reference on boundary probes; the agent's installed filters likewise.", "fake IRRd fidelity; parenthesised expressions; dependency limits (NOT on long prefixes, cross-family ^n-m) excluded."),
  "C12": ("exploration", "3.C12", "generated server hellos in both arrival orders + framing check over real transports",
@@ -38,19 +38,19 @@ P = {
  "C13": ("exploration", "3.C13", "metamorphic testing: every single XML-equivalent rewrite at every site + random compositions with delta-debugged signatures; rewrites guarded by an independent infoset comparison",
   "22 accepted base messages (hello, 4 reply types, candidate and installed configurations) x every applicable rewrite x every site, plus 5k (quick) / 1M random compositions.", "rewrites are information-preserving for these grammars; free-text leaves untouched."),
  "C14": ("exploration", "3.C14", "mutation fuzzing of server messages with panic / hang / collateral-failure monitors (release, dev, Miri, ASan builds)",
-  "100k (quick) / 10M mutated messages; replies are fed while two other requests are outstanding whose own replies follow; no panic, bounded time (watchdog with witness), at most the affected call fails; when the damaged reply's start tag (message-id) is untouched no other request may fail and its owner must resolve.", "mutation operators of harness/src/parse.rs."),
+  "100k (quick) / 10M mutated messages (17 operators, among them runs of multi-byte characters across size boundaries); replies are fed while two other requests are outstanding whose own replies follow; no panic, bounded time (watchdog with witness), at most the affected call fails; when the damaged reply's start tag (message-id) is untouched no other request may fail and its owner must resolve.", "mutation operators of harness/src/parse.rs."),
  "C15": ("fault_enumeration", "3.C15", "real agent binary with k good + m unevaluable policies, per-policy outcome monitor",
-  "Every unevaluable kind alone (once already installed, once not yet installed) and combined (unknown as-set, IRR error, PeerAS, AS-path regex, attribute match) among 1-4 good policies in varying hash orders; good ones must be installed, committed and equal the oracle; unevaluable ones untouched.", "fake Junos/IRRd."),
+  "Every unevaluable kind alone (once already installed, once not yet installed) and combined, every other case sharing a filter-set between good and unevaluable policies, (unknown as-set, IRR error, PeerAS, AS-path regex, attribute match) among 1-4 good policies in varying hash orders; good ones must be installed, committed and equal the oracle; unevaluable ones untouched.", "fake Junos/IRRd."),
  "C16": ("exploration", "3.C16", "generated running configurations against the generator's own selection",
   "20k (quick) / 2M configurations mixing managed, inactive, unannotated, unparseable, marker-not-at-start-of-comment and other-content statements, attribute orders, duplicate xmlns:jcmd, escaped names.", "parseability of an annotation = rpsl grammar."),
  "C17": ("fault_enumeration", "3.C17", "shared-connection vs fresh-connection differential with query-keyed IRR error injection",
-  "150 (quick) / 20k sequences of 2-12 expressions on one evaluator with D/E/F injected on arbitrary queries; each result equals the fresh-connection result.", "faults keyed by query text."),
+  "150 (quick) / 20k sequences of 2-12 expressions on one evaluator with D/E/F injected on arbitrary queries, permanent and transient, plus saturation sequences (the same failing or panicking expression 1..257 times, then a good one sharing a filter-set); each result equals the fresh-connection result.", "faults keyed by query text."),
  "C18": ("exploration", "3.C18", "controlled scheduler with drop actions at every suspension point + real-transport partial-message drops; Miri and ThreadSanitizer as secondary oracles",
-  "As C05 plus drop(task) actions (never polled, waiting for a lock, reader waiting for the transport, reader holding an unparked reply) exhaustively for n<=2/3 (also with 70 kB replies) and randomly (reply sizes 150 B - 300 kB); TLS/SSH/child-process cases drop the reader after a partial message (thorough: also in a ThreadSanitizer build).", "as C05."),
+  "As C05 plus drop(task) actions (never polled, waiting for a lock, reader waiting for the transport, reader holding an unparked reply) exhaustively for n<=2/3 (also with 70 kB replies) and randomly (reply sizes 150 B - 300 kB); long-lived sessions (0..4096, thorough ..70k completed requests, then bursts of 2..400 of which all but one are abandoned, their replies arriving before or after the next request); TLS/SSH/child-process cases drop the reader after a partial message (thorough: also in a ThreadSanitizer build).", "as C05."),
  "C19": ("exploration", "3.C19", "real daemon under an LD_PRELOAD clock-dilation shim; virtual-time monitor of connection timestamps, logged delays, signals",
-  "Scripted outcome sequences for periods 300, 90, 60 (slow successful run), 600 and 0 with SIGHUP/SIGTERM/SIGINT during the normal wait and during back-off waits (quick) plus 30/60/100/120/150/1000/3600 (thorough); back-off start, growth, cap, period restoration, SIGHUP/SIGTERM/SIGINT, one-shot.", "virtual time = real x K; jitter > 20 ms makes a run inconclusive."),
+  "Scripted outcome sequences for periods 300, 90, 60 (slow successful run), 600 and 0 with SIGHUP/SIGTERM/SIGINT during the normal wait and during back-off waits, and a single-worker-thread daemon whose failed run leaves an evaluation task behind on an unresponsive IRRd (quick) plus 30/60/100/120/150/1000/3600 (thorough); back-off start, growth, cap, period restoration, SIGHUP/SIGTERM/SIGINT, one-shot.", "virtual time = real x K; jitter > 20 ms makes a run inconclusive."),
  "C20": ("exploration", "3.C20", "complete TRACE capture of the library transports and of the agent binary, multi-encoding secret search",
-  "SSH passwords and the secret parts of TLS client keys (PKCS#8/SEC1/PKCS#1; ECDSA P-256, RSA-2048, and types the TLS backend refuses or rarely sees: P-521, secp256k1, RSA-1024, Ed448, Ed25519, damaged DER) searched in clear, escaped, hex (6 styles), base64 (3 alignments x 2 alphabets) and byte lists, over successful and failing attempts, all verbosities and RUST_LOG directives, stderr and log file.", "encodings enumerated in harness/src/secrets.rs; public parts of a key (also in certificates) are not secrets."),
+  "SSH passwords and the secret parts of TLS client keys (PKCS#8/SEC1/PKCS#1; ECDSA P-256, RSA-2048, and types the TLS backend refuses or rarely sees: P-521, secp256k1, RSA-1024, Ed448, Ed25519, damaged DER) searched in clear, escaped, hex (6 styles), base64 (3 alignments x 2 alphabets) and byte lists, over successful and failing attempts (passwords with trailing line endings, key files on one line / without end marker / with CRLF and leading text), all verbosities and RUST_LOG directives, stderr and log file.", "encodings enumerated in harness/src/secrets.rs; public parts of a key (also in certificates) are not secrets."),
 }
 checks = []
 for pid in sorted(P):
